@@ -78,6 +78,7 @@ structure World where
   cmdQ : List Cmd := []                     -- the protocol's command channel
   cmdHold : Bool := false
   protoHold : Bool := false
+  heldConns : List Nat := []                -- connections established while the protocol loop is held
   protoGone : Bool := false
   obsOrders : List (List Nat) := []         -- checker mode: set orders observed on the implementation
   orders : List String := []
@@ -621,7 +622,7 @@ def step (w : World) (lineObs : String) : World × String :=
   match ts with
   | ["shutdown"] => shutdownOp w
   | ["phold"] => ({ w with protoHold := true }, "ok")
-  | ["prelease"] => run { w with protoHold := false } "ok"
+  | ["prelease"] => run { w with protoHold := false, heldConns := [] } "ok"
   | ["cmdhold"] => ({ w with cmdHold := true }, "ok")
   | ["cmdfill"] =>
     let n := cmdCap - w.userQ.length
@@ -660,7 +661,7 @@ where stepPeer (w : World) (ts : List String) : World × String :=
       if (w.conns.lookup p).isSome then (w, "ignored") else
       let cap := (((arg? "cap" rest).bind (·.toNat?)).getD 64).max 1
       let drain := (arg? "drain" rest) ≠ some "0"
-      let w := { w with gen := w.gen + 1 }
+      let w := { w with gen := w.gen + 1, heldConns := if w.protoHold then p :: w.heldConns else w.heldConns }
       let w := { w with conns := (p, { gen := w.gen, cap := cap, drain := drain }) :: w.conns,
                         transportQ := w.transportQ ++ [(p, .connEst true 0)] }
       run w "ok"
@@ -668,7 +669,7 @@ where stepPeer (w : World) (ts : List String) : World × String :=
     match p.toNat? with
     | none => (w, "bad-op")
     | some p =>
-      if (w.conns.lookup p).isNone then (w, "ignored") else
+      if (w.conns.lookup p).isNone || (w.protoHold && w.heldConns.contains p) then (w, "ignored") else
       let w := { w with conns := w.conns.filter (·.1 ≠ p), transportQ := w.transportQ ++ [(p, .connClosed)] }
       run w "ok"
   | ["dialfail", p] =>
